@@ -13,8 +13,12 @@ package dnsforward
 // mock upstream's call log and the query-log record.
 
 import (
+	"bytes"
 	"context"
+	"encoding/json"
 	"fmt"
+	"net/http"
+	"net/http/httptest"
 	"math/big"
 	"math/rand/v2"
 	"net"
@@ -687,7 +691,14 @@ func (l *c01QueryLog) take(req *dns.Msg) (p *querylog.AddParams) {
 // a hash-prefix lookup, property C19).
 type c01Checker struct{ blocked map[string]bool }
 
-func (ck *c01Checker) Check(host string) (block bool, err error) { return ck.blocked[host], nil }
+func (ck *c01Checker) Check(host string) (block bool, err error) {
+	if strings.HasPrefix(host, "slowlookup.") {
+		// the real checker is a network lookup: a few milliseconds
+		time.Sleep(5 * time.Millisecond)
+	}
+
+	return ck.blocked[host], nil
+}
 
 type c01Env struct {
 	s       *Server
@@ -700,6 +711,14 @@ type c01Env struct {
 	sbCk    *c01Checker
 	parCk   *c01Checker
 	concurrent bool
+	// wedged is set when a request did not return; the server is then replaced
+	wedged    bool
+	t         *testing.T
+	cacheSize uint32
+
+	// configuration-sequence mode
+	handlers map[string]http.HandlerFunc
+	srcDir   string
 
 	// sequence / reload modes
 	cur        *c01Case
@@ -728,7 +747,8 @@ func (e *c01Env) newFilterConf() *filtering.Config {
 
 func c01NewEnv(t *testing.T, cacheSize uint32) (e *c01Env) {
 	filtering.InitModule()
-	e = &c01Env{ups: &c01Upstream{}, ql: &c01QueryLog{}, dataDir: t.TempDir(), sbCk: &c01Checker{}, parCk: &c01Checker{}}
+	e = &c01Env{ups: &c01Upstream{}, ql: &c01QueryLog{}, dataDir: t.TempDir(), sbCk: &c01Checker{}, parCk: &c01Checker{},
+		t: t, cacheSize: cacheSize}
 	e.fconf = e.newFilterConf()
 	f, err := filtering.New(e.fconf, nil)
 	if err != nil {
@@ -772,7 +792,9 @@ func c01NewEnv(t *testing.T, cacheSize uint32) (e *c01Env) {
 	}
 	t.Cleanup(func() {
 		e.stopReload()
-		_ = s.Stop()
+		if _, wedged := c01Wedged.Load(s); !wedged {
+			_ = s.Stop()
+		}
 	})
 
 	return e
@@ -928,6 +950,12 @@ func c01MsgFields(m *dns.Msg) (f []string) {
 	return f
 }
 
+// c01Wedged holds the servers abandoned after a request hung (never stopped: Stop would block too).
+var c01Wedged sync.Map
+
+// c01HangTimeout bounds one request; nothing in the harness takes longer than milliseconds.
+const c01HangTimeout = 8 * time.Second
+
 // c01TTLNorm, when non-zero, is the lowest TTL of the scripted upstream answer:
 // a record TTL at most 5 s below it is rendered as that value (ageing of an
 // entry of the dnsproxy cache; sequence mode only).
@@ -944,7 +972,21 @@ func (e *c01Env) query(cip netip.Addr, qname string, qtype uint16) (obs []string
 	// bytes (no EDNS in the request) inside Resolve, before any filtering.
 	pctx := &proxy.DNSContext{Proto: proxy.ProtoTCP, Req: req, Addr: netip.AddrPortFrom(cip, 34567)}
 
-	err := e.s.handleDNSRequest(nil, pctx)
+	var err error
+	done := make(chan struct{})
+	go func() {
+		defer close(done)
+		err = e.s.handleDNSRequest(nil, pctx)
+	}()
+	select {
+	case <-done:
+	case <-time.After(c01HangTimeout):
+		// The request never returned (the server is wedged: see corpus/C01/finding-deadlock.txt).
+		e.wedged = true
+		c01Wedged.Store(e.s, true)
+
+		return []string{"hang"}
+	}
 	// An expired pause re-enables protection in a goroutine; let it finish
 	// before the next case reconfigures the filter.
 	for e.s.protectionUpdateInProgress.Load() {
@@ -983,6 +1025,11 @@ func (e *c01Env) query(cip netip.Addr, qname string, qtype uint16) (obs []string
 
 // configure applies a case and points the mock upstream at its script.
 func (e *c01Env) configure(c *c01Case) {
+	if e.wedged {
+		// abandon the wedged server (its goroutines stay blocked) and start over
+		fresh := c01NewEnv(e.t, e.cacheSize)
+		*e = *fresh
+	}
 	e.stopReload()
 	e.concurrent = false
 	e.apply(c)
@@ -1097,8 +1144,349 @@ func (e *c01Env) run(fields []string) (obs []string) {
 
 		return obs
 	default:
+		if strings.HasPrefix(fields[0], "C01.c") {
+			return e.cfgRun(fields)
+		}
 		panic("unknown op " + fields[0])
 	}
+}
+
+// ---------------------------------------------------------------- configuration-sequence mode
+
+const c01CfgSources = 6
+
+func (e *c01Env) srcPath(i int) string { return filepath.Join(e.srcDir, "src"+strconv.Itoa(i)+".txt") }
+
+func (e *c01Env) srcIndex(url string) string {
+	b := strings.TrimSuffix(strings.TrimPrefix(filepath.Base(url), "src"), ".txt")
+
+	return b
+}
+
+// call invokes a registered admin handler the way the HTTP server would and
+// then runs the pending asynchronous engine rebuild (what updatesLoop does).
+func (e *c01Env) call(h http.HandlerFunc, method, url string, body any) (status int) {
+	buf := &bytes.Buffer{}
+	if body != nil {
+		_ = json.NewEncoder(buf).Encode(body)
+	}
+	r := httptest.NewRequest(method, url, buf)
+	r.Header.Set("Content-Type", "application/json")
+	w := httptest.NewRecorder()
+	h(w, r)
+	for e.f.VerifRunPendingRebuild() {
+	}
+
+	return w.Code
+}
+
+// cfgStatus renders what GET /control/filtering/status reports.
+func (e *c01Env) cfgStatus(code int) (obs []string) {
+	r := httptest.NewRequest(http.MethodGet, "/control/filtering/status", nil)
+	w := httptest.NewRecorder()
+	e.handlers["/control/filtering/status"](w, r)
+	var st struct {
+		Filters, WhitelistFilters []struct {
+			URL        string `json:"url"`
+			RulesCount int    `json:"rules_count"`
+			Enabled    bool   `json:"enabled"`
+		} `json:"-"`
+		F []struct {
+			URL        string `json:"url"`
+			RulesCount int    `json:"rules_count"`
+			Enabled    bool   `json:"enabled"`
+		} `json:"filters"`
+		W []struct {
+			URL        string `json:"url"`
+			RulesCount int    `json:"rules_count"`
+			Enabled    bool   `json:"enabled"`
+		} `json:"whitelist_filters"`
+		UserRules []string `json:"user_rules"`
+		Enabled   bool     `json:"enabled"`
+	}
+	if err := json.Unmarshal(w.Body.Bytes(), &st); err != nil {
+		panic(err)
+	}
+	render := func(n int, get func(i int) (string, bool, int)) string {
+		if n == 0 {
+			return "-"
+		}
+		var ss []string
+		for i := 0; i < n; i++ {
+			u, en, c := get(i)
+			ss = append(ss, e.srcIndex(u)+":"+vutil.B(en)+":"+strconv.Itoa(c))
+		}
+
+		return strings.Join(ss, ",")
+	}
+
+	return []string{strconv.Itoa(code),
+		render(len(st.F), func(i int) (string, bool, int) { return st.F[i].URL, st.F[i].Enabled, st.F[i].RulesCount }),
+		render(len(st.W), func(i int) (string, bool, int) { return st.W[i].URL, st.W[i].Enabled, st.W[i].RulesCount }),
+		vutil.B(st.Enabled), strconv.Itoa(len(st.UserRules))}
+}
+
+func (e *c01Env) writeSrc(i int, lines []string) {
+	if err := os.WriteFile(e.srcPath(i), []byte(strings.Join(lines, "\n")+"\n"), 0o644); err != nil {
+		panic(err)
+	}
+}
+
+func c01Unhexes(fs []string) (l []string) {
+	for _, f := range fs {
+		l = append(l, vutil.Unhex(f))
+	}
+
+	return l
+}
+
+// cfgRun executes one line of a configuration sequence against ONE long-lived
+// DNSFilter + Server, through the real admin handlers.
+func (e *c01Env) cfgRun(f []string) (obs []string) {
+	switch f[0] {
+	case "C01.creset":
+		if e.wedged {
+			*e = *c01NewEnv(e.t, e.cacheSize)
+		}
+		e.stopReload()
+		e.concurrent = false
+		e.storage = nil
+		e.srcDir = filepath.Join(e.dataDir, "sources")
+		_ = os.RemoveAll(e.srcDir)
+		_ = os.RemoveAll(filepath.Join(e.dataDir, "filters"))
+		if err := os.MkdirAll(e.srcDir, 0o755); err != nil {
+			panic(err)
+		}
+		n := vutil.Atoi(f[1])
+		k := 2
+		for i := 0; i < n; i++ {
+			m := vutil.Atoi(f[k])
+			e.writeSrc(i, c01Unhexes(f[k+1:k+1+m]))
+			k += 1 + m
+		}
+		fc := e.newFilterConf()
+		e.handlers = map[string]http.HandlerFunc{}
+		fc.HTTPRegister = func(_, url string, h http.HandlerFunc) { e.handlers[url] = h }
+		fc.SafeFSPatterns = []string{filepath.Join(e.srcDir, "*")}
+		fc.BlockedResponseTTL = 10
+		hs, _ := hostsfile.NewDefaultStorage()
+		fc.EtcHosts = hs
+		flt, err := filtering.New(fc, nil)
+		if err != nil {
+			panic(err)
+		}
+		flt.VerifInitRebuildChan()
+		flt.RegisterFilteringHandlers()
+		e.s.serverLock.Lock()
+		old := e.s.dnsFilter
+		e.s.dnsFilter = flt
+		e.s.serverLock.Unlock()
+		old.Close()
+		e.f, e.fconf = flt, fc
+		e.s.conf.AAAADisabled = false
+		flt.EnableFilters(false)
+		e.cur = &c01Case{cip: netip.MustParseAddr("10.0.0.1")}
+
+		return []string{"reset"}
+	case "C01.csrc":
+		e.writeSrc(vutil.Atoi(f[1]), c01Unhexes(f[2:]))
+
+		return []string{"ok"}
+	case "C01.cadd":
+		code := e.call(e.handlers["/control/filtering/add_url"], http.MethodPost, "/control/filtering/add_url",
+			map[string]any{"name": "list " + f[1], "url": e.srcPath(vutil.Atoi(f[1])), "whitelist": vutil.UnB(f[2])})
+
+		return e.cfgStatus(code)
+	case "C01.cset":
+		code := e.call(e.handlers["/control/filtering/set_url"], http.MethodPost, "/control/filtering/set_url",
+			map[string]any{"url": e.srcPath(vutil.Atoi(f[1])), "whitelist": vutil.UnB(f[2]),
+				"data": map[string]any{"name": "list " + f[3], "url": e.srcPath(vutil.Atoi(f[3])), "enabled": vutil.UnB(f[4])}})
+
+		return e.cfgStatus(code)
+	case "C01.cremove":
+		code := e.call(e.handlers["/control/filtering/remove_url"], http.MethodPost, "/control/filtering/remove_url",
+			map[string]any{"url": e.srcPath(vutil.Atoi(f[1])), "whitelist": vutil.UnB(f[2])})
+
+		return e.cfgStatus(code)
+	case "C01.crefresh":
+		code := e.call(e.handlers["/control/filtering/refresh"], http.MethodPost, "/control/filtering/refresh",
+			map[string]any{"whitelist": vutil.UnB(f[1])})
+
+		return e.cfgStatus(code)
+	case "C01.crules":
+		rules := c01Unhexes(f[1:])
+		if rules == nil {
+			rules = []string{}
+		}
+		code := e.call(e.handlers["/control/filtering/set_rules"], http.MethodPost, "/control/filtering/set_rules",
+			map[string]any{"rules": rules})
+
+		return e.cfgStatus(code)
+	case "C01.cfilt":
+		code := e.call(e.handlers["/control/filtering/config"], http.MethodPost, "/control/filtering/config",
+			map[string]any{"enabled": vutil.UnB(f[1]), "interval": 0})
+
+		return e.cfgStatus(code)
+	case "C01.cprot":
+		code := e.call(e.s.handleSetProtection, http.MethodPost, "/control/protection",
+			map[string]any{"enabled": vutil.UnB(f[1]), "duration": 0})
+
+		return e.cfgStatus(code)
+	case "C01.cq":
+		qname := vutil.Unhex(f[1])
+		e.ups.rcode = dns.RcodeSuccess
+		e.ups.answer = []dns.RR{&dns.TXT{Hdr: dns.RR_Header{Name: qname, Rrtype: dns.TypeTXT, Class: dns.ClassINET, Ttl: 60}, Txt: []string{"up"}}}
+
+		return e.query(e.cur.cip, qname, uint16(vutil.Atoi(f[2])))
+	default:
+		panic("unknown op " + f[0])
+	}
+}
+
+var c01CfgDomains = []string{"ads.example.org", "tracker.net", "example.com", "cdn.tracker.net", "shop.example.com", "metrics.io"}
+
+func c01CfgContent(r *rand.Rand) (lines []string) {
+	for n := 1 + r.IntN(3); n > 0; n-- {
+		d := vutil.Pick(r, c01CfgDomains)
+		lines = append(lines, vutil.Pick(r, []string{"||" + d + "^", "||" + d + "^", "0.0.0.0 " + d, "||" + d + "^$important", "@@||" + d + "^", d}))
+	}
+	if r.IntN(3) == 0 {
+		lines = append([]string{"! Title: generated", "# comment"}, lines...)
+	}
+
+	return lines
+}
+
+func c01Hexes(ls []string) (f []string) {
+	for _, l := range ls {
+		f = append(f, vutil.Hex(l))
+	}
+
+	return f
+}
+
+// c01ConfigGen: per block a fresh filter, then a random walk over the admin
+// API (add / set_url enable-disable-change / remove / forced refresh with same
+// or changed contents / custom rules / filtering and protection switches),
+// each step followed by queries for the domains the lists are about.
+func c01ConfigGen(r *rand.Rand, emit vutil.Emit) {
+	blocks := vutil.N(150)
+	for b := 0; b < blocks; b++ {
+		line := []string{"C01.creset", strconv.Itoa(c01CfgSources)}
+		content := make([][]string, c01CfgSources)
+		for i := 0; i < c01CfgSources; i++ {
+			content[i] = c01CfgContent(r)
+			line = append(line, strconv.Itoa(len(content[i])))
+			line = append(line, c01Hexes(content[i])...)
+		}
+		emit(line...)
+		// a rough mirror of the configuration, only to aim the random walk
+		added := map[int]bool{} // source -> is allow list
+		present := func() (l []int) {
+			for i := 0; i < c01CfgSources; i++ {
+				if _, ok := added[i]; ok {
+					l = append(l, i)
+				}
+			}
+
+			return l
+		}
+		src := func() int { return r.IntN(c01CfgSources) }
+		known := func() int {
+			if p := present(); len(p) > 0 && r.IntN(8) > 0 {
+				return vutil.Pick(r, p)
+			}
+
+			return src()
+		}
+		kind := func(i int) string {
+			if w, ok := added[i]; ok && r.IntN(10) > 0 {
+				return vutil.B(w)
+			}
+
+			return vutil.B(r.IntN(4) == 0)
+		}
+		// domains the queries after a step are about
+		about := func(i int) (ds []string) {
+			for _, l := range content[i] {
+				for _, d := range c01CfgDomains {
+					if strings.Contains(l, d) {
+						ds = append(ds, d)
+					}
+				}
+			}
+
+			return ds
+		}
+		for step := 0; step < 24; step++ {
+			focus := -1
+			switch k := r.IntN(20); {
+			case k < 4 || step < 3:
+				i := src()
+				w := r.IntN(4) == 0
+				if _, ok := added[i]; !ok {
+					added[i] = w
+				}
+				focus = i
+				emit("C01.cadd", strconv.Itoa(i), vutil.B(w))
+			case k < 12:
+				// enable / disable (mostly keeping the URL), now and then a change of URL
+				i := known()
+				j := i
+				if r.IntN(6) == 0 {
+					j = src()
+				}
+				focus = j
+				emit("C01.cset", strconv.Itoa(i), kind(i), strconv.Itoa(j), vutil.B(r.IntN(2) == 0))
+				if w, ok := added[i]; ok && j != i {
+					if _, taken := added[j]; !taken {
+						delete(added, i)
+						added[j] = w
+					}
+				}
+			case k < 13:
+				i := known()
+				emit("C01.cremove", strconv.Itoa(i), kind(i))
+				delete(added, i)
+			case k < 15:
+				emit("C01.crefresh", vutil.B(r.IntN(4) == 0))
+			case k < 17:
+				i := known()
+				if r.IntN(3) > 0 {
+					content[i] = c01CfgContent(r)
+				}
+				focus = i
+				emit(append([]string{"C01.csrc", strconv.Itoa(i)}, c01Hexes(content[i])...)...)
+			case k < 18:
+				var rules []string
+				if r.IntN(3) > 0 {
+					rules = c01CfgContent(r)
+				}
+				emit(append([]string{"C01.crules"}, c01Hexes(rules)...)...)
+			case k < 19:
+				emit("C01.cfilt", vutil.B(r.IntN(4) > 0))
+			default:
+				emit("C01.cprot", vutil.B(r.IntN(4) > 0))
+			}
+			for n := 1 + r.IntN(2); n > 0; n-- {
+				d := vutil.Pick(r, c01CfgDomains)
+				if focus >= 0 {
+					if ds := about(focus); len(ds) > 0 && r.IntN(4) > 0 {
+						d = vutil.Pick(r, ds)
+					}
+				}
+				if r.IntN(4) == 0 {
+					d = "www." + d
+				}
+				emit("C01.cq", vutil.Hex(d+"."), strconv.Itoa(int(vutil.Pick(r, []uint16{dns.TypeA, dns.TypeA, dns.TypeAAAA, dns.TypeTXT}))))
+			}
+		}
+	}
+}
+
+func TestVerifC01Config(t *testing.T) {
+	e := c01NewEnv(t, 0)
+	vutil.Main(t, c01ConfigGen, e.run)
 }
 
 // ---------------------------------------------------------------- generator
@@ -1450,6 +1838,12 @@ func c01GenExt(r *rand.Rand, c *c01Case) {
 	if r.IntN(5) == 0 {
 		c.sbOn, c.parOn = r.IntN(3) > 0, r.IntN(3) > 0
 		c.sbHost, c.parHost = vutil.Pick(r, c01BlockHosts), vutil.Pick(r, c01BlockHosts)
+		if c.pause == "past" {
+			// Not generated: an expired pause + a host-name block host deadlocks the server
+			// (recursive serverLock.RLock in genBlockedHost against the pending writer
+			// enableProtectionAfterPause) — kept as corpus/C01/finding-deadlock.txt.
+			c.sbHost, c.parHost = vutil.Pick(r, c01BlockHosts[:3]), vutil.Pick(r, c01BlockHosts[:3])
+		}
 		if c.hasClient {
 			c.csb, c.cpar = r.IntN(2) == 0, r.IntN(2) == 0
 		}
